@@ -107,17 +107,21 @@ func symFamily(c *inst, raw json.RawMessage, full bool, sum *core.Summary) {
 					w0 := outVec(n, 1)
 					k.where = desc("Dsyev query jobz", string(rune(jobz)), "uplo", uname[uplo], "n", n, "lda", lda, "sce", c.Sce)
 					opt, ok := k.query("Dsyev", minw, func(work []float64) { impl.Dsyev(jobz, uplo, n, a0, lda, w0, work, -1) }, a0, w0)
-					lworks := []int{minw}
-					if ok && opt != minw {
-						lworks = append(lworks, opt)
-					}
+					grid := lworkGrid(minw, opt, ok, lda, n)
 					for _, routine := range []string{"Dsyev", "lapack64.Syev"} {
 						if routine == "lapack64.Syev" && pad != 0 {
 							continue
 						}
-						for _, lwork := range lworks {
+						for _, lw := range grid {
+							lwork := lw.lwork
+							if routine == "lapack64.Syev" && lw.name != "min" && lw.name != "opt" {
+								continue // the wrapper only forwards lwork
+							}
+							if routine == "Dsyev" {
+								gridNote("lwork_grid", desc("Dsyev", lw.name, "lda+"+desc(pad)))
+							}
 							novec = jobz == lapack.EVNone
-							k.where = desc(routine, "jobz", string(rune(jobz)), "uplo", uname[uplo], "n", n, "lda", lda, "lwork", lwork, "sce", c.Sce)
+							k.where = desc(routine, "jobz", string(rune(jobz)), "uplo", uname[uplo], "n", n, "lda", lda, "lwork", lwork, "("+lw.name+")", "sce", c.Sce)
 							a := buildSym(c, uplo, lda)
 							w := outVec(n, 1)
 							work := newWork(lwork)
@@ -142,6 +146,8 @@ func symFamily(c *inst, raw json.RawMessage, full bool, sum *core.Summary) {
 							k.symValues(routine, c, w)
 							if jobz == lapack.EVCompute {
 								k.symVectors(routine, c, a, lda)
+								// every eigenvector (repeated eigenvalues too): GenPred!SymAccept
+								k.symIdentity(routine, c, a, lda, w)
 							} else {
 								k.otherTriangle(routine, a, n, lda, uplo)
 							}
@@ -164,12 +170,10 @@ func symFamily(c *inst, raw json.RawMessage, full bool, sum *core.Summary) {
 				d0, e0, tau0 := outVec(n, 1), outVec(n-1, 1), outVec(n-1, 1)
 				k.where = desc("Dsytrd query uplo", uname[uplo], "n", n, "lda", lda)
 				opt, ok := k.query("Dsytrd", 1, func(work []float64) { impl.Dsytrd(uplo, n, a0, lda, d0, e0, tau0, work, -1) }, a0, d0, e0, tau0)
-				lworks := []int{1}
-				if ok && opt != 1 {
-					lworks = append(lworks, opt)
-				}
-				for _, lwork := range lworks {
-					k.where = desc("Dsytrd uplo", uname[uplo], "n", n, "lda", lda, "lwork", lwork)
+				for oi, lw := range lworkGrid(1, opt, ok, lda, n) {
+					lwork := lw.lwork
+					gridNote("lwork_grid", desc("Dsytrd", lw.name, "lda+"+desc(pad)))
+					k.where = desc("Dsytrd uplo", uname[uplo], "n", n, "lda", lda, "lwork", lwork, "("+lw.name+")")
 					a := buildSym(c, uplo, lda)
 					d, e, tau := outVec(n, 1), outVec(n-1, 1), outVec(n-1, 1)
 					work := newWork(lwork)
@@ -217,11 +221,9 @@ func symFamily(c *inst, raw json.RawMessage, full bool, sum *core.Summary) {
 					minq := maxi(1, n-1)
 					k.where = desc("Dorgtr query uplo", uname[uplo], "n", n, "lda", lda)
 					optq, okq := k.query("Dorgtr", minq, func(w []float64) { impl.Dorgtr(uplo, n, a, lda, tau, w, -1) }, a, tau)
-					lwq := []int{minq}
-					if okq && optq != minq {
-						lwq = append(lwq, optq)
-					}
-					for _, lq := range lwq {
+					for _, lwq := range innerGrid(oi, lworkGrid(minq, optq, okq, lda, n)) {
+						lq := lwq.lwork
+						gridNote("lwork_grid", desc("Dorgtr", lwq.name, "lda+"+desc(pad)))
 						q := cloneF(a)
 						// Dorgtr overwrites the whole n x n matrix; clear the canary triangle first is NOT
 						// needed: the routine must not read it.
@@ -247,6 +249,7 @@ func symFamily(c *inst, raw json.RawMessage, full bool, sum *core.Summary) {
 						k.cmpPad("Dsteqr", "z", q, lda, n, n)
 						k.symValues("Dsytrd+Dorgtr+Dsteqr", c, d2)
 						k.symVectors("Dsytrd+Dorgtr+Dsteqr", c, q, lda)
+						k.symIdentity("Dsytrd+Dorgtr+Dsteqr", c, q, lda, d2)
 					}
 				}
 			}
